@@ -28,14 +28,40 @@ def hStep : Handler := fun op j =>
       | some _ => pure "KeyError"
       | none => pure (showRat (activeConcProd (fun k => dgetD vars k 0) r))
   | "rxn_rate" => do
-      let r ← asRxn (← field j "rxn")
-      pure (showRates (rateDict (← getVars j "vars") r (← getStrList j "keys")))
+      -- `vars: null` = `variables=None` (an empty dict); `param_key` = string parameter; `ratex_value` = `ratex=<number>`
+      let vars ← match j.getObjVal? "vars" with
+        | .ok .null => pure []
+        | _ => getVars j "vars"
+      let keys ← getStrList j "keys"
+      match j.getObjVal? "ratex_value" with
+      | .ok .null | .error _ =>
+        match ← resolveRxn vars (← field j "rxn") with
+        | none => pure "KeyError"
+        | some r => pure (showRates (rateDict vars r keys))
+      | .ok v => do
+        let r ← asRxn (← field j "rxn")
+        pure (showDict (rxnRateOf (← asRat v) r keys))
   | "rxn_keys" => do
       let r ← asRxn (← field j "rxn")
       pure (showStrList (rxnKeys r))
   | "sys_rates" => do
+      let vars ← getVars j "vars"
+      let rs ← (← getArr j "rxns").mapM (resolveRxn vars)
+      if rs.any Option.isNone then pure "KeyError" else
+      pure (showRates (ratesDict vars (rs.filterMap id) (← getOptKeys j "keys") (← getCstr j "cstr")))
+  | "law_rates_k" => do
+      -- law_of_mass_action_rates with the kind of each reaction's param: "plain" | "massaction" | "other"
       let rs ← getRxns j "rxns"
-      pure (showRates (ratesDict (← getVars j "vars") rs (← getOptKeys j "keys") (← getCstr j "cstr")))
+      let kinds ← (← getStrList j "kinds").mapM fun k =>
+        match k with
+        | "plain" => pure ParamKind.plain
+        | "massaction" => pure ParamKind.massAction
+        | "other" => pure ParamKind.otherRateExpr
+        | _ => .error "!bad-arg:kinds"
+      if kinds.length ≠ rs.length then .error "!bad-arg:kinds" else
+      pure (showExceptList (lawOfMassActionRatesK (← getRatList j "conc") (← getStrList j "keys") (rs.zip kinds)))
+  | "parse_refusal" => do
+      pure (parseRefusal (← getStrList j "keys") (← getStr j "line"))
   | "sys_rates_default_cstr" => do
       -- get_odesys(rsys, cstr=True): default feed map over ALL substances, then rates on the substance order
       let rs ← getRxns j "rxns"
